@@ -6,6 +6,7 @@ import ArcSwapModel.Tie.LibDrop
 import ArcSwapModel.Tie.LibWithStrategy
 import ArcSwapModel.Tie.HybridCas
 import ArcSwapModel.Tie.HybridWaitForReaders
+import ArcSwapModel.Tie.RwWaitForReaders
 import ArcSwapModel.Tie.DebtPayAll
 import ArcSwapModel.Tie.DebtPay
 import ArcSwapModel.Tie.Sites
